@@ -172,3 +172,40 @@ func vpH_C31_copyto_dirty_target() {
 	vpAssert(same(src, fresh), "the source is unchanged")
 	vpReach("end")
 }
+
+// Integer to float conversion into a used target: same result as into a fresh one, every bucket holding
+// the absolute count (concrete small counts; the symbolic-count version is out of reach, see DESIGN).
+func vpH_C31_tofloat_dirty_target() {
+	mkI := func(variant int) *Histogram {
+		switch variant {
+		case 0:
+			return &Histogram{Schema: 1, ZeroThreshold: 0.25, ZeroCount: 2, Count: 15, Sum: 3.5,
+				PositiveSpans: []Span{{Offset: 0, Length: 2}, {Offset: 2, Length: 1}}, PositiveBuckets: []int64{3, -1, 4},
+				NegativeSpans: []Span{{Offset: 1, Length: 1}}, NegativeBuckets: []int64{4}}
+		case 1:
+			return &Histogram{Schema: CustomBucketsSchema, Count: 6, Sum: 9, CustomValues: []float64{1, 2},
+				PositiveSpans: []Span{{Offset: 0, Length: 3}}, PositiveBuckets: []int64{1, 1, 1}}
+		default:
+			return &Histogram{CounterResetHint: GaugeType}
+		}
+	}
+	src := mkI(vpShape("source", 0, 2))
+	dirty := mkI(vpShape("target", 0, 2)).ToFloat(nil)
+	fresh := src.ToFloat(nil)
+	got := src.ToFloat(dirty)
+	vpAssert(got == dirty, "the provided target is the one filled")
+	vpAssert(got.Equals(fresh) && got.CounterResetHint == fresh.CounterResetHint && math.Float64bits(got.Sum) == math.Float64bits(fresh.Sum), "conversion into a used target equals conversion into a fresh one")
+	var abs int64
+	for i, d := range src.PositiveBuckets {
+		abs += d
+		vpAssert(i < len(got.PositiveBuckets) && got.PositiveBuckets[i] == float64(abs), "every positive bucket holds the absolute count")
+	}
+	abs = 0
+	for i, d := range src.NegativeBuckets {
+		abs += d
+		vpAssert(i < len(got.NegativeBuckets) && got.NegativeBuckets[i] == float64(abs), "every negative bucket holds the absolute count")
+	}
+	vpAssert(got.Count == float64(src.Count) && got.ZeroCount == float64(src.ZeroCount), "count and zero count")
+	vpObserve("n", len(got.PositiveBuckets))
+	vpReach("end")
+}
